@@ -9,7 +9,7 @@ ASSUMPTIONS = [
     "values are opaque tokens; task bodies have no side effects besides the harness record",
     "exhaustive only within the alphabet and bounds listed in coverage.bounds",
 ]
-MENU = ["wrap:S0", "wrap:S1", "wrap:P0", "wrap:A", "ins:probe", "ins:raise", "item:err", "leaf:sh", "ins:sync", "wrap:try"]
+MENU = ["ins:caught", "wrap:S0", "wrap:S1", "wrap:P0", "wrap:A", "ins:probe", "ins:raise", "item:err", "leaf:sh", "ins:sync", "wrap:try"]
 CATS = ["ctx-lifo", "probe-mismatch", "override-not-restored", "ctx-left-active", "hang", "worker-died"]
 LADDER = {"quick": [(4, 1, ["call"]), (3, 2, ["call"])], "thorough": [(5, 1, ["call"]), (4, 2, ["call"]), (2, 3, ["call"])]}
 SPEC = {"r1": True, "r2": False}
